@@ -6,3 +6,9 @@ pub mod types;
 
 #[cfg(feature = "server")]
 pub use brc20_prog_database::Brc20ProgDatabase;
+
+#[cfg(feature = "verif-hooks")]
+pub(crate) mod verif_reexports {
+    pub use super::cached_database::{BlockCachedDatabase, BlockHistoryCache, BlockHistoryCacheData};
+    pub use super::database::BlockDatabase;
+}
